@@ -30,11 +30,17 @@ pub(crate) fn set_day_of_year(days: i32, day_of_year: u32) -> Result<i32, Astrol
 
 pub(crate) fn add_years(days: i32, years: u32) -> Result<i32, AstrolabeError> {
     let (year, month, mut day) = days_to_date(days);
-    let mut target_year: i32 = year + years as i32;
+    let mut target_year = year as i64 + years as i64;
     // Skip year 0
     if year < 0 && target_year >= 0 {
         target_year += 1;
     }
+    let target_year = i32::try_from(target_year).map_err(|_| {
+        create_custom_oor(format!(
+            "Instance would result into an overflow if {} years were added.",
+            years,
+        ))
+    })?;
 
     if is_leap_year(year) && !is_leap_year(target_year) && month == 2 && day == 29 {
         day = 28;
@@ -82,11 +88,17 @@ pub(crate) fn add_days(old_days: i32, days: u32) -> Result<i32, AstrolabeError> 
 
 pub(crate) fn sub_years(days: i32, years: u32) -> Result<i32, AstrolabeError> {
     let (year, month, mut day) = days_to_date(days);
-    let mut target_year: i32 = year - years as i32;
+    let mut target_year = year as i64 - years as i64;
     // Skip year 0
     if year > 0 && target_year <= 0 {
         target_year -= 1;
     }
+    let target_year = i32::try_from(target_year).map_err(|_| {
+        create_custom_oor(format!(
+            "Instance would result into an overflow if {} years were subtracted.",
+            years,
+        ))
+    })?;
 
     if is_leap_year(year) && !is_leap_year(target_year) && month == 2 && day == 29 {
         day = 28;
